@@ -1,0 +1,263 @@
+//go:build verif
+
+// Contracts for the package-level structure (properties C01, C02): the PACKAGE relationship list (_rels/.rels), the
+// document-properties parts (docProps/core.xml, docProps/app.xml) with their content types and relationships, and the
+// invariant "the package locates exactly one main document part". Read by /verif/engine (govc).
+// Comments only: with or without the build tag this file adds no code to the package.
+package document
+
+// ---- the package relationship list --------------------------------------------------------------------------------------
+
+//@ spec pkgOfficeType() string = "http://schemas.openxmlformats.org/officeDocument/2006/relationships/officeDocument"
+//@ spec pkgCoreType() string = "http://schemas.openxmlformats.org/package/2006/relationships/metadata/core-properties"
+//@ spec pkgAppType() string = "http://schemas.openxmlformats.org/officeDocument/2006/relationships/extended-properties"
+
+// relNoType(rs, t): no relationship of the list has type t.
+//@ spec relNoType(rs []Relationship, t string) bool = forall q int :: {rs[q]} 0 <= q && q < len(rs) ==> rs[q].Type != t
+// relOneTypeAt(rs, j, t, f): rs[j] is THE relationship of type t - the only one - and its target is f.
+//@ spec relOneTypeAt(rs []Relationship, j int, t string, f string) bool = 0 <= j && j < len(rs) && rs[j].Type == t && rs[j].Target == f && (forall q int :: {rs[q]} 0 <= q && q < len(rs) && q != j ==> rs[q].Type != t)
+// pkgMainOK(d) (C01): the package relationship list locates exactly one main document part: exactly one relationship
+// of the officeDocument type, and its target is word/document.xml.
+//@ spec pkgMainOK(d *Document) bool = exists j int :: {d.relationships.Relationships[j]} relOneTypeAt(d.relationships.Relationships, j, pkgOfficeType(), "word/document.xml")
+// relsApart(d): the package list and the document list are two objects whose entries live in two arrays (every
+// constructor allocates them separately), so that an append to one cannot be seen through the other.
+//@ spec relsApart(d *Document) bool = d.relationships != d.documentRelationships && (cap(d.relationships.Relationships) == 0 || cap(d.documentRelationships.Relationships) == 0 || arr(d.relationships.Relationships) != arr(d.documentRelationships.Relationships))
+
+// The id allocator of the PACKAGE relationship list: an id no entry of that list carries, whatever ids the list holds
+// (an opened package may use any). It writes nothing. (Partial correctness, as for the document list's allocator.)
+//@ func (*Document).nextPackageRelationshipID
+//@ props C02, C01
+//@ requires d != nil && d.relationships != nil
+//@ modifies nothing
+//@ ensures relIDFree(d.relationships.Relationships, result)
+//@ ensures exists k int :: k >= 1 && result == sprintf("rId%d", k)
+//@ loop 1
+//@   invariant unchangedHeap() && n >= 1
+//@ loop 2
+//@   invariant 0 <= #i && #i <= len(d.relationships.Relationships) && unchangedHeap()
+//@   invariant forall j int :: 0 <= j && j < #i ==> d.relationships.Relationships[j].ID != id
+//@   decreases len(d.relationships.Relationships) - #i
+
+// addPackageRelationship(type, target): a package has at most one relationship of a properties type. If the list has
+// one of the type, nothing at all changes (a second call does not duplicate; an opened package keeps its own entry);
+// otherwise exactly one entry (an id no entry carries, the type, the target) is APPENDED. Either way every earlier
+// entry - in particular the officeDocument entry that locates word/document.xml - keeps its place, id, type and target,
+// pairwise different ids stay pairwise different, and the document relationship list is not touched.
+//@ func (*Document).addPackageRelationship
+//@ props C02, C01
+//@ requires d != nil && d.relationships != nil
+//@ ensures d.relationships == old(d.relationships)
+//@ ensures !old(relNoType(d.relationships.Relationships, relType)) ==> unchangedHeap()
+//@ ensures old(relNoType(d.relationships.Relationships, relType)) ==> len(d.relationships.Relationships) == old(len(d.relationships.Relationships)) + 1 && d.relationships.Relationships[old(len(d.relationships.Relationships))].Type == relType && d.relationships.Relationships[old(len(d.relationships.Relationships))].Target == target
+//@ ensures old(relNoType(d.relationships.Relationships, relType)) ==> forall j int :: {old(d.relationships.Relationships[j])} 0 <= j && j < old(len(d.relationships.Relationships)) ==> old(d.relationships.Relationships[j].ID) != d.relationships.Relationships[old(len(d.relationships.Relationships))].ID
+//@ ensures forall j int :: 0 <= j && j < old(len(d.relationships.Relationships)) ==> d.relationships.Relationships[j] == old(d.relationships.Relationships[j])
+//@ ensures old(relIDsUnique(d.relationships.Relationships)) ==> relIDsUnique(d.relationships.Relationships)
+//@ ensures !relNoType(d.relationships.Relationships, relType)
+//@ ensures forall r *Relationships :: r != d.relationships ==> r.Relationships == old(r.Relationships)
+//@ ensures unchangedExcept("Relationships.Relationships", "Relationship.*")
+//@ loop 1
+//@   invariant 0 <= #i && #i <= len(d.relationships.Relationships) && unchangedHeap() && d.relationships != nil
+//@   invariant forall q int :: 0 <= q && q < #i ==> d.relationships.Relationships[q].Type != relType
+//@   decreases len(d.relationships.Relationships) - #i
+
+// ---- the document-properties parts ---------------------------------------------------------------------------------------
+
+// pkgRelFor(rs, n, t, f): what one properties relationship call leaves in the list (n entries before): if the list had a
+// relationship of type t it is the same list; otherwise exactly one entry (t, f) was appended under an id no earlier
+// entry carries.
+//@ spec pkgRelFor(rs []Relationship, n int, had bool, t string, f string) bool = (had ==> len(rs) == n) && (!had ==> len(rs) == n + 1 && rs[n].Type == t && rs[n].Target == f && (forall j int :: {rs[j]} 0 <= j && j < n ==> rs[j].ID != rs[n].ID))
+
+// addPropertiesRelationships: the two properties parts are related FROM THE PACKAGE (their owner is the package, not the
+// main document part: the document relationship list is not touched). Entries are only ever appended: every existing
+// entry keeps its index, id, type and target - so the entry that locates word/document.xml is still the one and only
+// officeDocument relationship (pkgMainOK is preserved) - each new entry has an id that no other entry carries, and a
+// second call changes nothing at all.
+//@ func (*Document).addPropertiesRelationships
+//@ props C02, C01
+//@ requires d != nil && d.relationships != nil
+//@ ensures d.relationships == old(d.relationships)
+//@ ensures forall j int :: 0 <= j && j < old(len(d.relationships.Relationships)) ==> d.relationships.Relationships[j] == old(d.relationships.Relationships[j])
+//@ ensures len(d.relationships.Relationships) == old(len(d.relationships.Relationships)) + b2i(old(relNoType(d.relationships.Relationships, pkgCoreType()))) + b2i(old(relNoType(d.relationships.Relationships, pkgAppType())))
+//@ ensures old(relNoType(d.relationships.Relationships, pkgCoreType())) ==> d.relationships.Relationships[old(len(d.relationships.Relationships))].Type == pkgCoreType() && d.relationships.Relationships[old(len(d.relationships.Relationships))].Target == "docProps/core.xml"
+//@ ensures old(relNoType(d.relationships.Relationships, pkgAppType())) ==> d.relationships.Relationships[len(d.relationships.Relationships) - 1].Type == pkgAppType() && d.relationships.Relationships[len(d.relationships.Relationships) - 1].Target == "docProps/app.xml"
+//@ ensures forall a int, b int :: {d.relationships.Relationships[a], d.relationships.Relationships[b]} 0 <= a && a < b && b < len(d.relationships.Relationships) && b >= old(len(d.relationships.Relationships)) ==> d.relationships.Relationships[a].ID != d.relationships.Relationships[b].ID
+//@ ensures old(relIDsUnique(d.relationships.Relationships)) ==> relIDsUnique(d.relationships.Relationships)
+//@ ensures !relNoType(d.relationships.Relationships, pkgCoreType()) && !relNoType(d.relationships.Relationships, pkgAppType())
+//@ ensures !old(relNoType(d.relationships.Relationships, pkgCoreType())) && !old(relNoType(d.relationships.Relationships, pkgAppType())) ==> unchangedHeap()
+//@ ensures old(pkgMainOK(d)) ==> pkgMainOK(d)
+//@ ensures forall r *Relationships :: r != d.relationships ==> r.Relationships == old(r.Relationships)
+//@ ensures unchangedExcept("Relationships.Relationships", "Relationship.*")
+
+// ctUnique(os): no part has two overrides.
+//@ spec ctUnique(os []Override) bool = forall a int, b int :: {os[a], os[b]} 0 <= a && a < b && b < len(os) ==> os[a].PartName != os[b].PartName
+
+// addPropertiesContentTypes: each of the two parts has an override afterwards, registered exactly once: an existing
+// override is kept (a second call changes nothing), otherwise exactly one is appended; earlier overrides stay and a list
+// without duplicates stays without duplicates.
+//@ func (*Document).addPropertiesContentTypes
+//@ props C01
+//@ requires d != nil && d.contentTypes != nil
+//@ ensures d.contentTypes == old(d.contentTypes)
+//@ ensures ctHas(d.contentTypes.Overrides, "/" + "docProps/core.xml") && ctHas(d.contentTypes.Overrides, "/" + "docProps/app.xml")
+//@ ensures forall j int :: 0 <= j && j < old(len(d.contentTypes.Overrides)) ==> d.contentTypes.Overrides[j] == old(d.contentTypes.Overrides[j])
+//@ ensures len(d.contentTypes.Overrides) == old(len(d.contentTypes.Overrides)) + b2i(!old(ctHas(d.contentTypes.Overrides, "/" + "docProps/core.xml"))) + b2i(!old(ctHas(d.contentTypes.Overrides, "/" + "docProps/app.xml")))
+//@ ensures !old(ctHas(d.contentTypes.Overrides, "/" + "docProps/core.xml")) ==> d.contentTypes.Overrides[old(len(d.contentTypes.Overrides))].PartName == "/" + "docProps/core.xml" && d.contentTypes.Overrides[old(len(d.contentTypes.Overrides))].ContentType == "application/vnd.openxmlformats-package.core-properties+xml"
+//@ ensures !old(ctHas(d.contentTypes.Overrides, "/" + "docProps/app.xml")) ==> d.contentTypes.Overrides[len(d.contentTypes.Overrides) - 1].PartName == "/" + "docProps/app.xml" && d.contentTypes.Overrides[len(d.contentTypes.Overrides) - 1].ContentType == "application/vnd.openxmlformats-officedocument.extended-properties+xml"
+//@ ensures old(ctHas(d.contentTypes.Overrides, "/" + "docProps/core.xml")) && old(ctHas(d.contentTypes.Overrides, "/" + "docProps/app.xml")) ==> unchangedHeap()
+//@ ensures old(ctUnique(d.contentTypes.Overrides)) ==> ctUnique(d.contentTypes.Overrides)
+//@ ensures unchangedExcept("ContentTypes.Overrides", "Override.*")
+
+// generateCoreProperties / generateAppProperties: exactly one value is handed to the serialiser - a fresh CoreProperties /
+// AppProperties object built from the caller's properties; if the serialiser accepts it, the part docProps/core.xml /
+// docProps/app.xml ends with the bytes it returned, if it refuses nothing is written; no other part is touched and nothing
+// but the part map is written (in particular neither relationship list and no content type).
+//@ func (*Document).generateCoreProperties
+//@ props C01
+//@ requires d != nil && d.parts != nil && properties != nil
+//@ ensures d.parts == old(d.parts)
+//@ ensures err != nil ==> unchangedHeap() && marshalCount() == old(marshalCount())
+//@ ensures err == nil ==> marshalCount() == old(marshalCount()) + 1 && typeIs(marshalAt(old(marshalCount())), "*CoreProperties") && fresh(marshalAt(old(marshalCount())).(*CoreProperties))
+// every non-empty text property is an element of the value, with exactly that text; an empty one is left out
+//@ ensures err == nil ==> (marshalAt(old(marshalCount())).(*CoreProperties).Title != nil) == (properties.Title != "") && (properties.Title != "" ==> marshalAt(old(marshalCount())).(*CoreProperties).Title.Text == properties.Title)
+//@ ensures err == nil ==> (marshalAt(old(marshalCount())).(*CoreProperties).Subject != nil) == (properties.Subject != "") && (properties.Subject != "" ==> marshalAt(old(marshalCount())).(*CoreProperties).Subject.Text == properties.Subject)
+//@ ensures err == nil ==> (marshalAt(old(marshalCount())).(*CoreProperties).Creator != nil) == (properties.Creator != "") && (properties.Creator != "" ==> marshalAt(old(marshalCount())).(*CoreProperties).Creator.Text == properties.Creator)
+//@ ensures err == nil ==> (marshalAt(old(marshalCount())).(*CoreProperties).Keywords != nil) == (properties.Keywords != "") && (properties.Keywords != "" ==> marshalAt(old(marshalCount())).(*CoreProperties).Keywords.Text == properties.Keywords)
+//@ ensures err == nil ==> (marshalAt(old(marshalCount())).(*CoreProperties).Description != nil) == (properties.Description != "") && (properties.Description != "" ==> marshalAt(old(marshalCount())).(*CoreProperties).Description.Text == properties.Description)
+//@ ensures err == nil ==> (marshalAt(old(marshalCount())).(*CoreProperties).Language != nil) == (properties.Language != "") && (properties.Language != "" ==> marshalAt(old(marshalCount())).(*CoreProperties).Language.Text == properties.Language)
+//@ ensures err == nil ==> (marshalAt(old(marshalCount())).(*CoreProperties).Category != nil) == (properties.Category != "") && (properties.Category != "" ==> marshalAt(old(marshalCount())).(*CoreProperties).Category.Text == properties.Category)
+//@ ensures err == nil ==> (marshalAt(old(marshalCount())).(*CoreProperties).Version != nil) == (properties.Version != "") && (properties.Version != "" ==> marshalAt(old(marshalCount())).(*CoreProperties).Version.Text == properties.Version)
+//@ ensures err == nil ==> (marshalAt(old(marshalCount())).(*CoreProperties).Revision != nil) == (properties.Revision != "") && (properties.Revision != "" ==> marshalAt(old(marshalCount())).(*CoreProperties).Revision.Text == properties.Revision)
+//@ ensures err == nil ==> has(d.parts, "docProps/core.xml") && fnEndsWith(d.parts["docProps/core.xml"], marshalOut(old(marshalCount())))
+// the ghost sequence only grows: what earlier calls handed over, and got back, is still recorded
+//@ ensures forall i int :: {marshalAt(i)} i < old(marshalCount()) ==> marshalAt(i) == old(marshalAt(i))
+//@ ensures forall i int :: {marshalOut(i)} i < old(marshalCount()) ==> marshalOut(i) == old(marshalOut(i))
+//@ ensures forall k string :: k != "docProps/core.xml" ==> has(d.parts, k) == old(has(d.parts, k)) && d.parts[k] == old(d.parts[k])
+//@ ensures forall m map[string][]byte, k string :: m != d.parts ==> (has(m, k) <==> old(has(m, k))) && m[k] == old(m[k])
+//@ ensures unchangedExcept("map:string:[]byte")
+
+//@ func (*Document).generateAppProperties
+//@ props C01
+//@ requires d != nil && d.parts != nil && properties != nil
+//@ ensures d.parts == old(d.parts)
+//@ ensures err != nil ==> unchangedHeap() && marshalCount() == old(marshalCount())
+//@ ensures err == nil ==> marshalCount() == old(marshalCount()) + 1 && typeIs(marshalAt(old(marshalCount())), "*AppProperties") && fresh(marshalAt(old(marshalCount())).(*AppProperties))
+//@ ensures err == nil ==> marshalAt(old(marshalCount())).(*AppProperties).Pages == properties.Pages && marshalAt(old(marshalCount())).(*AppProperties).Words == properties.Words && marshalAt(old(marshalCount())).(*AppProperties).Characters == properties.Characters && marshalAt(old(marshalCount())).(*AppProperties).Paragraphs == properties.Paragraphs && marshalAt(old(marshalCount())).(*AppProperties).Lines == properties.Lines
+//@ ensures err == nil ==> has(d.parts, "docProps/app.xml") && fnEndsWith(d.parts["docProps/app.xml"], marshalOut(old(marshalCount())))
+// the ghost sequence only grows: what earlier calls handed over, and got back, is still recorded
+//@ ensures forall i int :: {marshalAt(i)} i < old(marshalCount()) ==> marshalAt(i) == old(marshalAt(i))
+//@ ensures forall i int :: {marshalOut(i)} i < old(marshalCount()) ==> marshalOut(i) == old(marshalOut(i))
+//@ ensures forall k string :: k != "docProps/app.xml" ==> has(d.parts, k) == old(has(d.parts, k)) && d.parts[k] == old(d.parts[k])
+//@ ensures forall m map[string][]byte, k string :: m != d.parts ==> (has(m, k) <==> old(has(m, k))) && m[k] == old(m[k])
+//@ ensures unchangedExcept("map:string:[]byte")
+
+// SetDocumentProperties(properties): nil is an error and nothing changes. A success leaves
+//  * both properties parts in the part map (each ending with the bytes the serialiser returned for the value built
+//    from `properties`), every other part untouched;
+//  * an override for each of the two parts, registered exactly once (existing overrides kept, no duplicates introduced);
+//  * the PACKAGE relationship list extended by at most the two properties relationships: every existing entry keeps its
+//    index, id, type and target (the officeDocument entry still locates word/document.xml: pkgMainOK preserved), each new
+//    entry has the target under which its part was stored and an id no other entry carries; the DOCUMENT relationship
+//    list is not touched;
+//  * on a document that already has the relationships and overrides (second call): neither list changes.
+// A failure of the serialiser is reported and leaves relationships and content types untouched (the core part may have
+// been rewritten when the app part's serialisation fails).
+//@ func (*Document).SetDocumentProperties
+//@ props C01, C02
+//@ requires docParts(d)
+//@ ensures (properties == nil) ==> err != nil && unchangedHeap() && marshalCount() == old(marshalCount())
+//@ ensures d.parts == old(d.parts) && d.contentTypes == old(d.contentTypes) && d.relationships == old(d.relationships) && d.documentRelationships == old(d.documentRelationships)
+//@ ensures err == nil ==> marshalCount() == old(marshalCount()) + 2
+//@ ensures err == nil ==> typeIs(marshalAt(old(marshalCount())), "*CoreProperties")
+//@ ensures err == nil ==> typeIs(marshalAt(old(marshalCount()) + 1), "*AppProperties")
+//@ ensures err == nil ==> has(d.parts, "docProps/core.xml") && has(d.parts, "docProps/app.xml")
+// (that the core part ends with the bytes returned for the first value is generateCoreProperties' postcondition; the second
+// step leaves that part alone - its frame clause - but the byte cells of a slice returned by encoding/xml are not known to
+// be allocated objects of the model, so the relation is not restated across the second call)
+//@ ensures err == nil ==> fnEndsWith(d.parts["docProps/app.xml"], marshalOut(old(marshalCount()) + 1))
+//@ ensures forall k string :: k != "docProps/core.xml" && k != "docProps/app.xml" ==> has(d.parts, k) == old(has(d.parts, k)) && d.parts[k] == old(d.parts[k])
+// content types
+//@ ensures err == nil ==> ctHas(d.contentTypes.Overrides, "/" + "docProps/core.xml") && ctHas(d.contentTypes.Overrides, "/" + "docProps/app.xml")
+//@ ensures forall j int :: 0 <= j && j < old(len(d.contentTypes.Overrides)) ==> d.contentTypes.Overrides[j] == old(d.contentTypes.Overrides[j])
+//@ ensures err == nil ==> len(d.contentTypes.Overrides) == old(len(d.contentTypes.Overrides)) + b2i(!old(ctHas(d.contentTypes.Overrides, "/" + "docProps/core.xml"))) + b2i(!old(ctHas(d.contentTypes.Overrides, "/" + "docProps/app.xml")))
+//@ ensures old(ctUnique(d.contentTypes.Overrides)) ==> ctUnique(d.contentTypes.Overrides)
+//@ ensures err != nil ==> d.contentTypes.Overrides == old(d.contentTypes.Overrides) && d.relationships.Relationships == old(d.relationships.Relationships)
+// package relationships
+//@ ensures forall j int :: 0 <= j && j < old(len(d.relationships.Relationships)) ==> d.relationships.Relationships[j] == old(d.relationships.Relationships[j])
+//@ ensures err == nil ==> len(d.relationships.Relationships) == old(len(d.relationships.Relationships)) + b2i(old(relNoType(d.relationships.Relationships, pkgCoreType()))) + b2i(old(relNoType(d.relationships.Relationships, pkgAppType())))
+//@ ensures err == nil && old(relNoType(d.relationships.Relationships, pkgCoreType())) ==> d.relationships.Relationships[old(len(d.relationships.Relationships))].Type == pkgCoreType() && d.relationships.Relationships[old(len(d.relationships.Relationships))].Target == "docProps/core.xml" && has(d.parts, d.relationships.Relationships[old(len(d.relationships.Relationships))].Target)
+//@ ensures err == nil && old(relNoType(d.relationships.Relationships, pkgAppType())) ==> d.relationships.Relationships[len(d.relationships.Relationships) - 1].Type == pkgAppType() && d.relationships.Relationships[len(d.relationships.Relationships) - 1].Target == "docProps/app.xml" && has(d.parts, d.relationships.Relationships[len(d.relationships.Relationships) - 1].Target)
+//@ ensures forall a int, b int :: {d.relationships.Relationships[a], d.relationships.Relationships[b]} 0 <= a && a < b && b < len(d.relationships.Relationships) && b >= old(len(d.relationships.Relationships)) ==> d.relationships.Relationships[a].ID != d.relationships.Relationships[b].ID
+//@ ensures old(relIDsUnique(d.relationships.Relationships)) ==> relIDsUnique(d.relationships.Relationships)
+//@ ensures old(pkgMainOK(d)) ==> pkgMainOK(d)
+//@ ensures err == nil ==> !relNoType(d.relationships.Relationships, pkgCoreType()) && !relNoType(d.relationships.Relationships, pkgAppType())
+// a second call: nothing is duplicated
+//@ ensures !old(relNoType(d.relationships.Relationships, pkgCoreType())) && !old(relNoType(d.relationships.Relationships, pkgAppType())) ==> d.relationships.Relationships == old(d.relationships.Relationships)
+//@ ensures old(ctHas(d.contentTypes.Overrides, "/" + "docProps/core.xml")) && old(ctHas(d.contentTypes.Overrides, "/" + "docProps/app.xml")) ==> d.contentTypes.Overrides == old(d.contentTypes.Overrides)
+// the document relationship list (and every other list) is not the owner
+//@ ensures forall r *Relationships :: r != d.relationships ==> r.Relationships == old(r.Relationships)
+//@ ensures unchangedExcept("map:string:[]byte", "Relationships.Relationships", "Relationship.*", "ContentTypes.Overrides", "Override.*")
+// (docRelsResolve is NOT restated here: the document list keeps its slice value and the part map only grows, but that the ENTRIES of
+// the document list keep their fields while the package list is appended to in place needs the two lists to live in different arrays
+// (relsApart, true for every constructor) and an element-wise frame through two calls that the solvers do not compose in time.)
+
+// ---- the single-property setters ---------------------------------------------------------------------------------------------
+// NOT under contract: SetTitle, SetAuthor, SetSubject, SetKeywords, SetDescription, SetCategory, UpdateStatistics. Each reads
+// the stored properties back (GetDocumentProperties: time.Now, xml.Unmarshal into a local CoreProperties/AppProperties whose
+// time.Time fields are copied field by field) and then calls SetDocumentProperties; everything they do to the package goes
+// through that call. With GetDocumentProperties inlined the wrappers produce ~220 obligations of 100 kB each that do not
+// discharge within the quick budget, so the claim stops at SetDocumentProperties.
+
+// ---- New(): the package skeleton ---------------------------------------------------------------------------------------------
+
+// partHasCT(d, name) (C01 "every part has a content type"): the part has an override for "/" + name, or its extension has
+// a default. Only the two defaults every constructor registers are needed for the parts the library names itself:
+// "xml" for *.xml, "rels" for *.rels (the extension of a literal name is a ground fact, written out at each use).
+//@ spec ctDefaultXML(d *Document) bool = ctHasDefault(d.contentTypes.Defaults, "xml")
+//@ spec ctDefaultRels(d *Document) bool = ctHasDefault(d.contentTypes.Defaults, "rels")
+
+// docRelsResolve(d) (C02): every entry of the DOCUMENT relationship list that is not external names a part that is present:
+// its target t is relative to word/, the part map holds "word/" + t.
+//@ spec docRelsResolve(d *Document) bool = forall j int :: {d.documentRelationships.Relationships[j]} 0 <= j && j < len(d.documentRelationships.Relationships) && d.documentRelationships.Relationships[j].TargetMode != "External" ==> has(d.parts, "word/" + d.documentRelationships.Relationships[j].Target)
+
+// initializeStructure (the second half of New()) builds the package skeleton of a document made from scratch:
+//  * the package relationship list is exactly one entry: rId1, officeDocument, word/document.xml (pkgMainOK, unique ids);
+//  * the content-type list has the defaults "rels" and "xml" and overrides for /word/document.xml and /word/styles.xml,
+//    no part twice;
+//  * the part map gains exactly [Content_Types].xml, _rels/.rels and word/_rels/document.xml.rels, each in an array of its own
+//    (each covered by a default: .xml, .rels, .rels);
+//  * the document relationship list is not touched (New() has just made it empty, so docRelsResolve holds trivially).
+// Everything it writes is the receiver's: the two list objects are fresh, no other document and no other map changes.
+//@ func (*Document).initializeStructure
+//@ props C01, C02
+//@ requires d != nil && d.parts != nil && d.documentRelationships != nil
+//@ ensures d.contentTypes != nil && fresh(d.contentTypes) && freshArr(d.contentTypes.Defaults) && freshArr(d.contentTypes.Overrides)
+//@ ensures d.relationships != nil && fresh(d.relationships) && freshArr(d.relationships.Relationships)
+//@ ensures len(d.relationships.Relationships) == 1 && d.relationships.Relationships[0].ID == "rId1" && d.relationships.Relationships[0].Type == pkgOfficeType() && d.relationships.Relationships[0].Target == "word/document.xml" && d.relationships.Relationships[0].TargetMode == ""
+//@ ensures pkgMainOK(d) && relIDsUnique(d.relationships.Relationships)
+//@ ensures len(d.contentTypes.Defaults) == 2 && d.contentTypes.Defaults[0].Extension == "rels" && d.contentTypes.Defaults[1].Extension == "xml" && ctDefaultXML(d) && ctDefaultRels(d)
+//@ ensures len(d.contentTypes.Overrides) == 2 && d.contentTypes.Overrides[0].PartName == "/word/document.xml" && d.contentTypes.Overrides[1].PartName == "/word/styles.xml" && ctUnique(d.contentTypes.Overrides)
+//@ ensures ctHas(d.contentTypes.Overrides, "/" + "word/document.xml") && ctHas(d.contentTypes.Overrides, "/" + "word/styles.xml")
+//@ ensures has(d.parts, "[Content_Types].xml") && has(d.parts, "_rels/.rels") && has(d.parts, "word/_rels/document.xml.rels")
+//@ ensures freshArr(d.parts["[Content_Types].xml"]) && freshArr(d.parts["_rels/.rels"]) && freshArr(d.parts["word/_rels/document.xml.rels"])
+//@ ensures forall k string :: k != "[Content_Types].xml" && k != "_rels/.rels" && k != "word/_rels/document.xml.rels" ==> has(d.parts, k) == old(has(d.parts, k)) && d.parts[k] == old(d.parts[k])
+//@ ensures forall m map[string][]byte, k string :: m != d.parts ==> (has(m, k) <==> old(has(m, k))) && m[k] == old(m[k])
+//@ ensures forall x *Document :: x != d ==> x.contentTypes == old(x.contentTypes) && x.relationships == old(x.relationships)
+//@ ensures d.documentRelationships == old(d.documentRelationships) && d.parts == old(d.parts)
+//@ ensures old(len(d.documentRelationships.Relationships)) == 0 ==> docRelsResolve(d)
+//@ ensures unchangedExcept("Document.contentTypes", "Document.relationships", "map:string:[]byte")
+
+// ---- C01 "every part has a content type": where each part writer of the library gets it ------------------------------------------
+// (the string theory has no "extension of" function; each row is a postcondition of the named contract)
+//   [Content_Types].xml, _rels/.rels, word/_rels/document.xml.rels   defaults "xml"/"rels": initializeStructure (New); never lost:
+//                                                                     the only writer of the defaults list is addImageContentType,
+//                                                                     which keeps every registered default (its last postcondition)
+//   word/document.xml, word/styles.xml                                overrides registered by initializeStructure (and default "xml")
+//   word/header*.xml, word/footer*.xml                                override "/" + part name: the six header/footer calls (C11)
+//   word/footnotes.xml, word/endnotes.xml, word/settings.xml          override: initializeFootnotes/Endnotes/Settings (fnCtOK)
+//   word/numbering.xml                                                override: initializeNumbering
+//   word/media/image<n>.<ext>                                         default for <ext> = the extension in the part name:
+//                                                                     AddImageFromDataWithoutElement / addImageContentType (C10)
+//   docProps/core.xml, docProps/app.xml                               overrides: SetDocumentProperties / addPropertiesContentTypes
+// NOT covered: parts of an opened package (their content types are whatever the foreign [Content_Types].xml says, read by
+// encoding/xml), parts copied by the template engine (cloneAllDocumentParts copies parts and cloneDocument copies both
+// content-type lists, but no contract relates the two), and the header/footer parts the template renderer rewrites in place.
